@@ -476,6 +476,9 @@ func oracleH(hc *HCase, hb *hbuilt) []string {
 	if hc.Verdict == 11 {
 		return nil // a crash is an outcome of its own, not an acceptance
 	}
+	if anyCredentialDiffers(&hc.C) {
+		return []string{whatVrfDiffers}
+	}
 	if hc.Verdict != 0 || !hc.wellFormed() {
 		return nil
 	}
